@@ -14,6 +14,22 @@ pub fn validate_attributes(attributable: &(impl Attributable + AsAttributables),
     }
 }
 
+/// Validates the attributes of a type reference that isn't a reference to a type (base interfaces and underlying types).
+/// These aren't visited as [TypeRef]s, but like on any type reference, none of the compiler's attributes are valid on them.
+pub fn validate_attributes_on_specialized_type_ref<T: Element + ?Sized>(type_ref: &TypeRef<T>, diagnostics: &mut Diagnostics) {
+    let attributes = type_ref.attributes();
+    validate_repeated_attributes(&attributes, diagnostics);
+    for attribute in attributes {
+        if attribute.downcast::<attributes::Unparsed>().is_none() {
+            Diagnostic::new(Error::InvalidAttribute {
+                directive: attribute.kind.directive().to_owned(),
+            })
+            .set_span(attribute.span())
+            .push_into(diagnostics);
+        }
+    }
+}
+
 /// Validates a list of attributes to ensure attributes which are not allowed to be repeated are not repeated.
 pub fn validate_repeated_attributes(attributes: &[&Attribute], diagnostics: &mut Diagnostics) {
     let mut first_attribute_occurrence = HashMap::new();
